@@ -207,7 +207,9 @@ func c08Doc(c c08Case) (enc string, want oracle.ResponseT, xml []byte, err error
 }
 
 func c08Conf(c c08Case) world.SPConf {
-	return world.SPConf{Store: []string{"K1", "K3"}, AllowMissingAttributes: c.AllowMissing}
+	// the store holds exactly the certificate of the key this case is signed with: on the
+	// long-lived instance of the live pass it changes from case to case (key roll-over)
+	return world.SPConf{Store: []string{c08Key(c.SigAlg)}, AllowMissingAttributes: c.AllowMissing}
 }
 
 func c08Exec(c c08Case) (keys []string, detail, class string) {
